@@ -55,6 +55,8 @@ type Director struct {
 	rate    uint32 // perturb 1/rate hits
 	roleOf  func(who interface{}) string
 	ignore  func(name string) bool
+	trace   []string
+	tracing bool
 }
 
 var current atomic.Value // *Director
@@ -130,6 +132,9 @@ func (d *Director) hit(name string, who interface{}) {
 	if d.roleOf != nil {
 		role = d.roleOf(who)
 	}
+	if d.tracing && len(d.trace) < 20000 {
+		d.trace = append(d.trace, role+":"+name)
+	}
 	h := fnv.New64a()
 	var b [8]byte
 	for i := 0; i < 8; i++ {
@@ -189,6 +194,20 @@ func (d *Director) hit(name string, who interface{}) {
 			}
 		}
 	}
+}
+
+// StartTrace records the sequence of "role:name" hits (bounded) from now on.
+func (d *Director) StartTrace() {
+	d.mu.Lock()
+	d.tracing = true
+	d.mu.Unlock()
+}
+
+// Trace returns the recorded hit sequence.
+func (d *Director) Trace() []string {
+	d.mu.Lock()
+	defer d.mu.Unlock()
+	return append([]string(nil), d.trace...)
 }
 
 // Hits returns a copy of the per-point hit counters.
